@@ -102,7 +102,7 @@ fn read_index_file<T: Read>(mut source: T) -> Result<Vec<ShapeIndex>, Error> {
     let num_shapes = ((i64::from(header.file_length) * 2) - i64::from(header::HEADER_SIZE))
         / INDEX_RECORD_SIZE as i64;
     let num_shapes = usize::try_from(num_shapes).unwrap_or(0);
-    let mut shapes_index = Vec::<ShapeIndex>::with_capacity(num_shapes);
+    let mut shapes_index = Vec::<ShapeIndex>::with_capacity(record::io::capacity_for(num_shapes));
     for _ in 0..num_shapes {
         let offset = source.read_i32::<BigEndian>()?;
         let record_size = source.read_i32::<BigEndian>()?;
